@@ -71,9 +71,18 @@ Ok(ts, tg) == [st |-> "ok", toks |-> ts, tags |-> tg]
 Bad(st, tg) == [st |-> st, toks |-> <<>>, tags |-> tg]
 Front(s) == SubSeq(s, 1, Len(s) - 1)
 Last(s) == s[Len(s)]
-\* first token of an inserted sequence takes the white space of the token it replaces (seam)
-MarkFirst(ts, ws) == IF ts = <<>> THEN ts ELSE <<[ts[1] EXCEPT !.ws = ws, !.syn = TRUE]>> \o Tail(ts)
-MarkSeam(ts) == IF ts = <<>> THEN ts ELSE <<[ts[1] EXCEPT !.syn = TRUE]>> \o Tail(ts)
+\* White space at the seams of a replacement (only # can observe it).  An invocation is replaced by
+\* the replacement list (6.10.3p7: white space around the list is not part of it), so the white
+\* space in front of the macro name N stays in front of the first token of the result and the token
+\* after the invocation keeps its own (6.10.3.5 EXAMPLE 4: xstr(INCFILE(2).h) is "vers2.h").
+\* Not fixed by the text (syn = TRUE): white space in front of an argument's first token when the
+\* parameter had none, and white space around a replacement that is empty.
+MarkFirst(ts, N) == IF ts = <<>> THEN ts ELSE <<[ts[1] EXCEPT !.ws = N.ws, !.syn = N.syn]>> \o Tail(ts)
+MarkFirstArg(ts, P) == IF ts = <<>> THEN ts
+                       ELSE <<[ts[1] EXCEPT !.ws = P.ws, !.syn = P.syn \/ (~P.ws /\ (ts[1].ws \/ ts[1].syn))]>> \o Tail(ts)
+AfterEmpty(ts, N) == IF ts = <<>> THEN ts
+                     ELSE <<[ts[1] EXCEPT !.syn = @ \/ (~ts[1].ws /\ (N.ws \/ N.syn))]>> \o Tail(ts)
+NoTok == [k |-> "none", t |-> <<>>, hs |-> {}, ws |-> FALSE, syn |-> FALSE]
 
 \* ---- macro table: sequence of definitions with distinct names ----------------
 \* def = [name, fl (function-like), params (spellings), body (tokens)]
@@ -200,43 +209,44 @@ BodyStatus(d) ==
 IsHashOp(d, j) == d.fl /\ IsP(d.body[j], HASH)
 
 Fuel == 300
-RECURSIVE Exp(_, _, _, _, _, _, _), Sub1(_, _, _, _, _, _, _, _)
+RECURSIVE Exp(_, _, _, _, _, _, _), Sub1(_, _, _, _, _, _, _, _, _)
 
 \* ---- subst: replacement list of d with arguments args (raw), then ## ; result not yet hs-added
 \* items built by Sub1: body tokens, stringized arguments, arguments (fully macro-expanded
 \* unless operand of # or ##; an empty ## operand becomes a place marker), ## operators as "paste"
-Sub1(ms, mode, d, args, j, acc, tg, fuel) ==
+\* pe: the parameter just replaced by nothing (else NoTok)
+Sub1(ms, mode, d, args, j, acc, tg, fuel, pe) ==
     LET b == d.body IN
     IF j > Len(b) THEN Ok(acc, tg)
     ELSE LET B == b[j]
              pi == ParamIdx(d, B)
-             afterParam == j > 1 /\ ParamIdx(d, b[j - 1]) > 0
          IN
          IF IsHashOp(d, j)
          THEN IF (j > 1 /\ IsP(b[j - 1], HASHHASH)) \/ (j + 2 <= Len(b) /\ IsP(b[j + 2], HASHHASH))
               THEN Bad("unspec", {"hash-hashhash-order"})            \* 6.10.3.2p2: order of # and ## unspecified
               ELSE LET s == Stringize(args[ParamIdx(d, b[j + 1])], B) IN
                    IF s.st # "ok" THEN Bad(s.st, s.tags)
-                   ELSE Sub1(ms, mode, d, args, j + 2, Append(acc, s.tok), tg \cup s.tags, fuel)
+                   ELSE Sub1(ms, mode, d, args, j + 2, acc \o AfterEmpty(<<s.tok>>, pe), tg \cup s.tags, fuel, NoTok)
          ELSE IF IsP(B, HASHHASH)
          THEN IF IsP(b[j + 1], HASHHASH) THEN Bad("unspec", {"hashhash-hashhash"})
-              ELSE Sub1(ms, mode, d, args, j + 1, Append(acc, [B EXCEPT !.k = "paste"]), tg, fuel)
+              ELSE Sub1(ms, mode, d, args, j + 1, Append(acc, [B EXCEPT !.k = "paste"]), tg, fuel, NoTok)
          ELSE IF pi > 0
          THEN LET a == args[pi]
                   byPaste == (j > 1 /\ IsP(b[j - 1], HASHHASH)) \/ (j < Len(b) /\ IsP(b[j + 1], HASHHASH))
               IN IF byPaste
                  THEN Sub1(ms, mode, d, args, j + 1,
                            acc \o (IF a = <<>> THEN <<[k |-> "pm", t |-> <<>>, hs |-> {}, ws |-> B.ws, syn |-> TRUE]>>
-                                   ELSE MarkFirst(a, B.ws)),
-                           tg \cup {"arg-paste-operand"} \cup (IF a = <<>> THEN {"arg-empty"} ELSE {}), fuel)
+                                   ELSE MarkFirstArg(a, B)),
+                           tg \cup {"arg-paste-operand"} \cup (IF a = <<>> THEN {"arg-empty"} ELSE {}), fuel, NoTok)
                  ELSE LET e == Exp(ms, mode, a, <<>>, {}, fuel - 1, "arg") IN
                       IF e.st # "ok" THEN e
-                      ELSE Sub1(ms, mode, d, args, j + 1, acc \o MarkFirst(e.toks, B.ws),
-                                tg \cup e.tags \cup (IF a = <<>> THEN {"arg-empty"} ELSE {}), fuel)
-         ELSE Sub1(ms, mode, d, args, j + 1, Append(acc, IF afterParam THEN [B EXCEPT !.syn = TRUE] ELSE B), tg, fuel)
+                      ELSE Sub1(ms, mode, d, args, j + 1, acc \o AfterEmpty(MarkFirstArg(e.toks, B), pe),
+                                tg \cup e.tags \cup (IF a = <<>> THEN {"arg-empty"} ELSE {}), fuel,
+                                IF e.toks = <<>> THEN (IF pe.ws \/ pe.syn THEN pe ELSE B) ELSE NoTok)
+         ELSE Sub1(ms, mode, d, args, j + 1, acc \o AfterEmpty(<<B>>, pe), tg, fuel, NoTok)
 
 Subst(ms, mode, d, args, HS, fuel) ==
-    LET s == Sub1(ms, mode, d, args, 1, <<>>, {}, fuel) IN
+    LET s == Sub1(ms, mode, d, args, 1, <<>>, {}, fuel, NoTok) IN
     IF s.st # "ok" THEN s
     ELSE LET p == PastePass(s.toks, 1, <<>>, s.tags, mode) IN
          IF p.st # "ok" THEN p
@@ -257,13 +267,14 @@ Exp(ms, mode, ts, acc, tg, fuel, ctx) ==
               IF ~d.fl
               THEN LET r == Subst(ms, mode, d, <<>>, T.hs \cup {T.t}, fuel) IN
                    IF r.st # "ok" THEN r
-                   ELSE Exp(ms, mode, MarkFirst(r.toks, T.ws) \o MarkSeam(rest), acc,
+                   ELSE Exp(ms, mode, MarkFirst(r.toks, T) \o (IF r.toks = <<>> THEN AfterEmpty(rest, T) ELSE rest), acc,
                             tg \cup r.tags \cup {"object-like"} \cup (IF r.toks = <<>> THEN {"empty-expansion"} ELSE {})
+                               \cup (IF r.toks # <<>> /\ IsP(r.toks[1], HASH) THEN {"expansion-starts-with-hash"} ELSE {})
                                \cup (IF r.toks = <<>> /\ rest = <<>> THEN {"empty-expansion-at-end"} ELSE {}),
                             fuel - 1, ctx)
               ELSE IF rest = <<>> \/ ~IsP(rest[1], LP)
                    THEN Exp(ms, mode, rest, Append(acc, T),
-                            tg \cup {"fn-name-without-paren"}
+                            tg \cup {"fn-name-without-paren"} \cup (IF rest = <<>> THEN {"fn-name-ends-" \o ctx} ELSE {})
                                \cup (IF rest # <<>> /\ rest[1].k = "id" /\ Defined(ms, rest[1].t) /\ rest[1].t \notin rest[1].hs
                                      THEN {"fn-name-then-macro"} ELSE {}),
                             fuel, ctx)
@@ -274,10 +285,11 @@ Exp(ms, mode, ts, acc, tg, fuel, ctx) ==
                             r == Subst(ms, mode, d, ga.args, HS, fuel)
                             after == SubSeq(rest, ga.next, Len(rest))
                         IN IF r.st # "ok" THEN r
-                           ELSE Exp(ms, mode, MarkFirst(r.toks, T.ws) \o MarkSeam(after), acc,
+                           ELSE Exp(ms, mode, MarkFirst(r.toks, T) \o (IF r.toks = <<>> THEN AfterEmpty(after, T) ELSE after), acc,
                                     tg \cup r.tags \cup {"function-like"}
                                        \cup (IF T.hs # ga.rp.hs THEN {"paren-from-other-context"} ELSE {})
                                        \cup (IF r.toks = <<>> THEN {"empty-expansion"} ELSE {})
+                                       \cup (IF r.toks # <<>> /\ IsP(r.toks[1], HASH) THEN {"expansion-starts-with-hash"} ELSE {})
                                        \cup (IF r.toks = <<>> /\ after = <<>> THEN {"empty-expansion-at-end"} ELSE {})
                                        \cup (IF \E x \in 1..Len(ga.args) : \E y \in 1..Len(ga.args[x]) :
                                                   IsP(ga.args[x][y], HASHHASH) \/ IsP(ga.args[x][y], HASH)
@@ -352,6 +364,15 @@ TypeU(e) == CASE e.op = "num" -> LET v == ParseInt(e.t) IN v.u
                                  ELSE IF e.f \in {"<<", ">>"} THEN TypeU(e.a)
                                  ELSE TypeU(e.a) \/ TypeU(e.b)
               [] e.op = "cond" -> TypeU(e.a) \/ TypeU(e.b)
+
+\* every constant of the expression must be an integer constant, evaluated or not (6.6p6)
+RECURSIVE LitStatus(_)
+LitStatus(e) == CASE e.op = "num" -> ParseInt(e.t).st
+                  [] e.op = "zero" -> "ok"
+                  [] e.op = "un" -> LitStatus(e.a)
+                  [] e.op = "bin" -> IF LitStatus(e.a) # "ok" THEN LitStatus(e.a) ELSE LitStatus(e.b)
+                  [] e.op = "cond" -> IF LitStatus(e.c) # "ok" THEN LitStatus(e.c)
+                                      ELSE IF LitStatus(e.a) # "ok" THEN LitStatus(e.a) ELSE LitStatus(e.b)
 
 \* ---- evaluation (6.5, 6.6) ----------------------------------------------
 ShiftCountOK(b) == ~(~b.u /\ IsNegW(b.w)) /\ b.w[1] < 64 /\ \A j \in 2..8 : b.w[j] = 0
@@ -441,6 +462,7 @@ IfValueMode(ms, mode, ts) ==
          ELSE IF \E j \in 1..Len(e.toks) : IsId(e.toks[j], N_defined) THEN [st |-> "undef", v |-> FALSE, tags |-> {"defined-produced-by-macro"}]
          ELSE LET p == PCond(e.toks, 1) IN
               IF ~p.ok \/ p.p # Len(e.toks) + 1 THEN [st |-> "invalid", v |-> FALSE, tags |-> {"if-syntax"}]
+              ELSE IF LitStatus(p.ast) # "ok" THEN [st |-> LitStatus(p.ast), v |-> FALSE, tags |-> {"if-constant"}]
               ELSE LET r == Ev(p.ast) IN
                    [st |-> r.st, v |-> ~WIsZero(r.w),
                     tags |-> r.tags \cup (e.tags \ {"hidden-if"}) \cup (IF dp.toks # ts THEN {"if-defined"} ELSE {})]
